@@ -253,6 +253,16 @@ func ruleC08Callbacks(c *Checker) {
 			return
 		}
 		cf := mc.Fn.(*ssa.Function)
+		// a method value (collector.addRemote): the wrapper go/ssa makes for it only calls the method
+		recvParams := 0
+		if strings.Contains(cf.Synthetic, "bound method wrapper") {
+			for _, ci := range callsIn(cf) {
+				if g := ci.Common().StaticCallee(); g != nil && p.InModule(g) {
+					cf = g
+					recvParams = 1
+				}
+			}
+		}
 		okc := false
 		eachInstr(cf, func(x ssa.Instruction) {
 			s2, ok := x.(*ssa.Store)
@@ -279,8 +289,8 @@ func ruleC08Callbacks(c *Checker) {
 					}
 				}
 			}
-			carries := len(cf.Params) > 0
-			for _, prm := range cf.Params {
+			carries := len(cf.Params) > recvParams
+			for _, prm := range cf.Params[recvParams:] {
 				if !used[prm] {
 					carries = false
 				}
